@@ -41,6 +41,9 @@ Definition AH (lat_ns status : N) (body : option (N * V)) : sans :=
 Definition hang_ns : N := 4611686018427387904%N.
 Definition AHang : sans := (ANS hang_ns None, 0%N).
 
+(* an outage in compact form: n times the answer a, then l *)
+Definition Rep (n : nat) (a : sans) (l : list sans) : list sans := repeat a n ++ l.
+
 (* per name: the answers to its first requests, then the answer to every later one *)
 Definition stab := list (name * (list sans * sans)).
 Definition sans_of (tb : stab) (n : name) (j : nat) : sans :=
@@ -121,7 +124,8 @@ Definition norm_preqs (l : list (name * N)) : list (name * N) := mk_map l.
 Definition val_of (s : store V) (n : name) : option N :=
   match find n (m s) with Some (Some e) => Some (val e) | _ => None end.
 
-Definition fuel : nat := 64.
+(* rounds: a 31-minute outage takes 13 + 1852 s / 4.096 s = 466 rounds *)
+Definition fuel : nat := 700.
 
 (* the request whose failure ended construction (`return err` at store.go:704), if that is how it ended:
    the last event of the trace is a failed request returning with the context dead.  Result: was the failure
